@@ -126,7 +126,7 @@ def run(ctx):
                     j = bad[0]
                     import re as _re
                     big = any(int(x) > 2**53 for x in _re.findall(r"[0-9]{16,}", sx_str(A))) if True else False
-                    ctx.violation("get-model:assertion-%s:%s%s" % ("false" if ev["asserts"][j] == "F" else "undefined", logic, (":const>2^53" if big else "") + (":after-unknown" if seen_unknown else "")),
+                    ctx.violation("get-model:assertion-%s:%s%s" % ("false" if ev["asserts"][j] == "F" else "undefined", logic, (":const>2^53" if big else "") + (":after-unknown" if seen_unknown else "") + (":non-incremental" if "(set-option :incremental 0)" in text else "")),
                                   "assertion %s evaluates to %s under the printed model (verified evaluator)" % (sx_str(A[j]), ev["asserts"][j]),
                                   dict(script=text, check_index=k, assertion=sx_str(A[j]), model=sx_str(ans), stdout=out))
             elif kind == "get-value" and last_model is not None:
